@@ -74,13 +74,15 @@ pub enum Op { Next(int), Flush, Report }
 pub trait Entry { spec fn id(&self) -> int; }
 pub struct ValidationError { pub v: u8 }
 pub struct IoError { pub v: u8 }
-#[derive(Structural, Clone, Copy, PartialEq, Eq)]
-pub enum ErrorKind { Interrupted, WriteZero, WouldBlock, BrokenPipe, Other }
+// std::io::ErrorKind is the real type (comparisons on it are unspecified: any kind is possible)
+#[verifier::external_type_specification]
+pub struct ExErrorKind(std::io::ErrorKind);
+pub assume_specification[ <std::io::ErrorKind as PartialEq>::eq ](a: &std::io::ErrorKind, b: &std::io::ErrorKind) -> (r: bool);
 impl IoError {
     #[verifier::external_body]
-    pub fn kind(&self) -> ErrorKind { unimplemented!() }
+    pub fn kind(&self) -> std::io::ErrorKind { unimplemented!() }
 }
-pub mod io { pub use super::ErrorKind; pub type Error = super::IoError; }
+pub mod io { pub use std::io::ErrorKind; pub type Error = super::IoError; }
 pub enum IoStreamError { Validation(ValidationError), Io(IoError) }
 
 pub trait EntryIoStream {
